@@ -272,6 +272,10 @@ class Executor:
 
     def step(self, op):
         kind = op["op"]
+        if kind == "apply" and op.get("via") == "attr" \
+                and not op.get("_edited"):
+            self.step({"op": "mutate_attr", "pipe": op["pipe"]})
+            return self.step(dict(op, _edited=True))
         ev = {"op": kind, "out": "ok", "exc": "", "nopt": 0, "argsame": True,
               "p": "none", "bad": False, "fresh": "none", "key": "none",
               "val": "none", "keys": [], "haspre": False, "ret": "none",
@@ -352,10 +356,35 @@ class Executor:
                               vary=p.vary)
         ev["via"] = "obj"
 
+    def op_mutate_attr(self, op, ev, args, pre):
+        """the caller edits, in place, the objects the curve exposes as
+        `preprocessing` / `preprocessing_options`"""
+        steps, opts = world.pipe_value(op["pipe"])
+        so, oo = self.idnt.preprocessing, self.idnt.preprocessing_options
+        ev["p"] = self.pipe_id(steps, opts)
+        if not (isinstance(so, list) and isinstance(oo, dict)):
+            return
+        so[:] = steps
+        for k in list(oo):
+            if k not in opts:
+                del oo[k]
+        for k, v in opts.items():
+            if isinstance(v, dict) and isinstance(oo.get(k), dict):
+                oo[k].clear()
+                oo[k].update(v)
+            else:
+                oo[k] = v
+
     # -- apply_preprocessing
     def _pipe_args(self, op):
         if op.get("via") == "obj":
             return self.pl_steps, self.pl_opts
+        if op.get("via") == "attr":
+            # the objects the curve itself exposes (edited in place by the
+            # preceding mutate_attr event)
+            so, oo = self.idnt.preprocessing, self.idnt.preprocessing_options
+            if isinstance(so, list) and isinstance(oo, dict):
+                return so, oo
         return world.pipe_value(op["pipe"])
 
     def _pipe_event(self, ev, steps, opts):
@@ -367,17 +396,21 @@ class Executor:
             else self.ids(("data", fresh))
 
     def op_apply(self, op, ev, args, pre):
+        # (the stored pipeline BEFORE the caller edits any object)
+        cur = copy.deepcopy(self.stored_pipeline())
         steps, opts = self._pipe_args(op)
-        ev["via"] = "obj" if op.get("via") == "obj" else "fresh"
+        ev["via"] = "obj" if op.get("via") in ("obj", "attr") else "fresh"
         self._pipe_event(ev, steps, opts)
-        cur = self.stored_pipeline()
         ev["streq"] = bool(
             "preprocessing" in self.idnt.fit_properties
             and world._strict([list(steps), dict(opts)])
             == world._strict([cur[0], cur[1]])
             and type(steps) is type(cur[0]))
         self._watch(args, steps, opts)
-        if op.get("via") == "details":
+        if op.get("via") == "attr" and op.get("noargs") and \
+                steps is self.idnt.preprocessing:
+            self.idnt.apply_preprocessing()
+        elif op.get("via") == "details":
             ev["details"] = True
             self.idnt.apply_preprocessing(steps, opts, ret_details=True)
         else:
